@@ -162,8 +162,15 @@ Definition ok_roi2_pad (K : fld) : Prop :=
 Definition ok_conv2 (K : fld) : Prop :=
   forall v00 v01 v02 v03 v10 v11 v12 v13 v20 v21 v22 v23 k00 k01 k02 k10 k11 k12 k20 k21 k22 : K,
   gen_io_data_conv2 [[v00; v01; v02; v03]; [v10; v11; v12; v13]; [v20; v21; v22; v23]] [[k00; k01; k02]; [k10; k11; k12]; [k20; k21; k22]] = to_nested2 (d_conv2 [[k00; k01; k02]; [k10; k11; k12]; [k20; k21; k22]] (of_nested2 [[v00; v01; v02; v03]; [v10; v11; v12; v13]; [v20; v21; v22; v23]])).
+(* downsample with NEGATIVE levels (= upsampling through core.image.downsample's redirect), effective flag False *)
+Definition ok_down_neg_nac (K : fld) : Prop :=
+  forall (s c : nat -> K) (d : nat -> nat -> K),
+  interp_ok 2 gen_io_interp_down_neg_nac (gen_io_s_down_neg_nac (vtab 2 s) (vtab 2 c) (tab 2 2 d)) (gen_io_c_down_neg_nac (vtab 2 s) (vtab 2 c) (tab 2 2 d)) (vtab 2 s) (vtab 2 c) (tab 2 2 d).
+Definition ok_down_neg_flag (K : fld) : Prop :=
+  forall (s c : nat -> K) (d : nat -> nat -> K),
+  interp_ok 2 gen_io_interp_down_neg_flag (gen_io_s_down_neg_flag (vtab 2 s) (vtab 2 c) (tab 2 2 d)) (gen_io_c_down_neg_flag (vtab 2 s) (vtab 2 c) (tab 2 2 d)) (vtab 2 s) (vtab 2 c) (tab 2 2 d).
 Definition traced_index_ops_ok (K : fld) : Prop :=
-  ok_roi2 K /\ ok_roi2_pad K /\ ok_conv2 K /\
+  ok_down_neg_nac K /\ ok_down_neg_flag K /\ ok_roi2 K /\ ok_roi2_pad K /\ ok_conv2 K /\
   ok_crop_num K /\
   ok_crop_margin K /\
   ok_crop_mixed K /\
